@@ -116,36 +116,59 @@ Proof.
   destruct (common_below _ _ _ Ha Hb); congruence.
 Qed.
 
+Lemma nodup_names_inj (m : lmap) x y : NoDup (map l_name m) -> In x m -> In y m -> l_name x = l_name y -> x = y.
+Proof.
+  induction m as [|z m IH]; cbn; [intros _ []|]. intros ND Hx Hy E. inversion ND as [|? ? Hn ND']; subst.
+  destruct Hx as [->|Hx], Hy as [->|Hy]; auto.
+  - exfalso. apply Hn. rewrite E. now apply in_map.
+  - exfalso. apply Hn. rewrite <- E. now apply in_map.
+Qed.
+
 (* ------------------------------------------------------------------ the light invariant *)
+Lemma overlain0_incl T T' d : incl T' T -> overlain0 T d = false -> overlain0 T' d = false.
+Proof.
+  unfold overlain0. intros Hi H. apply existsb_false_forall. intros k Hk.
+  apply (proj1 (existsb_false_forall _ _) H). now apply Hi.
+Qed.
+
 Section Light.
 Variables (e : env) (c : cfgT) (um : users_map) (m : lmap).
 Hypothesis Hp : plain e.
 
 Definition ublocked (x : layer) : bool := existsb (in_mount_dirs c) (users_of um (l_name x)).
 
-Definition RL4 (x l : layer) : Prop :=
+Definition RL4 (T : list kline) (x l : layer) : Prop :=
   same_static x l
+  /\ l_overlain l = overlain0 T (build_path c x)
   /\ (forall t, In t (l_kmounts l) -> at_or_below (build_path c x) t = true)
   /\ (ublocked x = true -> l_kmounts l = [] \/ l_mbusy l = true).
 
-Definition tgt_ok (t : bytes) : Prop :=
-  exists y, In y m /\ ublocked y = false /\ at_or_below (build_path c y) t = true.
+(* a call may only hit the build root of a layer without a user in its mount directories and
+   without an overlay on it in the table T *)
+Definition tgt_ok (T : list kline) (t : bytes) : Prop :=
+  exists y, In y m /\ ublocked y = false /\ overlain0 T (build_path c y) = false
+            /\ at_or_below (build_path c y) t = true.
 
-Lemma RL4_name x l : RL4 x l -> l_name l = l_name x.
+Lemma RL4_name T x l : RL4 T x l -> l_name l = l_name x.
 Proof. intros [[H _] _]. exact H. Qed.
 
 Lemma kmounts0_below tab d t : In t (kmounts0 tab d) -> at_or_below d t = true.
 Proof. unfold kmounts0. intros H. apply (proj1 (sort_in _ _)) in H. now apply filter_In in H. Qed.
 
+Lemma tgt_ok_incl T T' t : incl T' T -> tgt_ok T t -> tgt_ok T' t.
+Proof. intros Hi (y & A & B & C & D). exists y. repeat split; auto. eapply overlain0_incl; eauto. Qed.
+
 Lemma light_loop : NoDup (map l_name m) -> forall names ld busy s,
-  Forall2 RL4 m (ld_map ld) -> wf_table (ks_tab (w_ks (s_w s))) = true ->
+  Forall2 (RL4 (ks_tab (w_ks (s_w s)))) m (ld_map ld) -> wf_table (ks_tab (w_ks (s_w s))) = true ->
   exists o s' iss, um_go e c names ld busy s = (o, s')
-    /\ s_log s' = rev (umlog e iss) ++ s_log s /\ Forall tgt_ok iss.
+    /\ s_log s' = rev (umlog e iss) ++ s_log s
+    /\ incl (ks_tab (w_ks (s_w s'))) (ks_tab (w_ks (s_w s)))
+    /\ Forall (tgt_ok (ks_tab (w_ks (s_w s')))) iss.
 Proof.
   intros NDn. induction names as [|n rest IH]; intros ld busy s HF Hwf.
-  - exists (Ret (busy, ld)), s, []. split; [reflexivity|]. split; [reflexivity|constructor].
+  - exists (Ret (busy, ld)), s, []. split; [reflexivity|]. split; [reflexivity|]. split; [apply incl_refl|constructor].
   - destruct (lm_get (ld_map ld) n) as [l|] eqn:Hg.
-    2:{ exists Panicked, s, []. split; [|split; [reflexivity|constructor]].
+    2:{ exists Panicked, s, []. split; [|split; [reflexivity|split; [apply incl_refl|constructor]]].
         change (um_go e c (n :: rest) ld busy s) with
           ((r <- unmount_layer e c ld n ;;
             um_go e c rest (snd r) (busy || match fst r with UBusy => true | _ => false end)) s).
@@ -155,48 +178,58 @@ Proof.
     destruct (error_if_busy l false) eqn:Ebusy; [apply IH; assumption|].
     destruct (l_kmounts l) as [|t0 ts0] eqn:Ekm; [apply IH; assumption|].
     (* the layer on disk this entry belongs to *)
-    assert (Hx : exists x, In x m /\ RL4 x l).
+    assert (Hx : exists x, In x m /\ RL4 (ks_tab (w_ks (s_w s))) x l).
     { destruct (lm_get_name _ _ _ Hg) as [_ Hin]. clear -HF Hin. induction HF as [|a b0 m M Hab HF IH]; [destruct Hin|].
       destruct Hin as [<-|Hin]; [exists a; split; [now left|exact Hab]|].
       destruct (IH Hin) as (x & Hx & Hr). exists x. split; [now right|exact Hr]. }
-    destruct Hx as (x & Hxin & (Hs & Hkb & Hub)).
+    destruct Hx as (x & Hxin & (Hs & Hov & Hkb & Hub)).
     assert (Hnb : ublocked x = false).
     { destruct (ublocked x) eqn:E; [|reflexivity]. destruct (Hub eq_refl) as [K|K]; [congruence|].
       unfold error_if_busy in Ebusy. rewrite K in Ebusy. discriminate. }
-    assert (Hiss : Forall tgt_ok iss).
+    assert (Hno : overlain0 (ks_tab (w_ks (s_w s))) (build_path c x) = false).
+    { unfold error_if_busy in Ebusy. rewrite Hov in Ebusy. now apply orb_false_iff in Ebusy. }
+    pose proof (ku_seq_incl _ _ _ _ _ Eku) as Hincl.
+    assert (Hiss : Forall (tgt_ok (ks_tab (w_ks (s_w s)))) iss).
     { pose proof (ku_seq_sub _ _ _ _ _ Eku) as Hsub.
       apply Forall_forall. intros t Ht. apply Hsub in Ht. rewrite <- in_rev in Ht.
-      exists x. split; [exact Hxin|]. split; [exact Hnb|]. apply Hkb. now rewrite Ekm. }
+      exists x. split; [exact Hxin|]. split; [exact Hnb|]. split; [exact Hno|]. apply Hkb. now rewrite Ekm. }
+    assert (Hiss' : Forall (tgt_ok (ks_tab ks')) iss).
+    { eapply Forall_impl; [|exact Hiss]. intros t. now apply tgt_ok_incl. }
     destruct ok.
-    2:{ exists Fail, (st_after e s ks' iss), iss. split; [reflexivity|]. split; [reflexivity|exact Hiss]. }
+    2:{ exists Fail, (st_after e s ks' iss), iss. split; [reflexivity|]. split; [reflexivity|]. split; [exact Hincl|exact Hiss']. }
     destruct (after_unmount c (w_fs (s_w s)) (ks_tab ks') ld n) as [r|] eqn:Ea.
-    2:{ exists Panicked, (st_after e s ks' iss), iss. split; [reflexivity|]. split; [reflexivity|exact Hiss]. }
+    2:{ exists Panicked, (st_after e s ks' iss), iss. split; [reflexivity|]. split; [reflexivity|]. split; [exact Hincl|exact Hiss']. }
     destruct (after_unmount_spec _ _ _ _ _ _ Ea) as (l1 & Hg1 & ->). cbn [snd].
     set (ld1 := refresh_pure c (ks_tab ks') ld) in *.
     destruct (IH (set_layer ld1 (find_layerstate c (w_fs (s_w s)) ld1 l1)) busy (st_after e s ks' iss))
-      as (o & s' & iss2 & R & Hlog & Htg).
+      as (o & s' & iss2 & R & Hlog & Hincl2 & Htg).
     + (* invariant after the update *)
-      unfold set_layer. cbn [ld_map].
-      assert (HF1 : Forall2 RL4 m (ld_map ld1)).
+      unfold set_layer. cbn [ld_map st_after s_w w_ks].
+      assert (HF1 : Forall2 (RL4 (ks_tab ks')) m (ld_map ld1)).
       { unfold ld1, refresh_pure. cbn [ld_map]. clear -HF. induction HF as [|a b0 m M Hab HF IH]; cbn [map]; constructor; [|exact IH].
-        destruct Hab as (A & B & C). split; [exact A|]. split; [exact B|exact C]. }
+        destruct Hab as ((S1 & S2 & S3 & S4 & S5) & A0 & B & C). split; [repeat split; assumption|].
+        split. { cbn [l_overlain set_overlain]. now rewrite (build_path_static c a b0 S3). }
+        split; [exact B|exact C]. }
       destruct (lm_get_name _ _ _ Hg1) as [Hn1 _].
       pose proof (find_layerstate_fields c (w_fs (s_w s)) ld1 l1) as Hf. unfold lfields in Hf.
       injection Hf as F1 F2 F3 F4 F5 F6 F7 F8 F9 F10.
       eapply forall2_lm_set; [exact HF1|apply RL4_name|exact NDn|exact Hg1|now rewrite F1| |auto].
-      intros y Hy ((S1 & S2 & S3 & S4 & S5) & Hkb1 & Hub1). split; [|split].
+      intros y Hy ((S1 & S2 & S3 & S4 & S5) & A0 & Hkb1 & Hub1). split; [|split; [|split]].
       * unfold same_static. rewrite F1, F2, F5, F3, F4. auto.
+      * now rewrite F8.
       * intros t. rewrite F10. cbn [l_kmounts set_kmounts].
         rewrite mounts_view, (build_path_static c y l1 S3). apply kmounts0_below.
       * intros Hyb. exfalso.
-        (* y is the processed layer x *)
         assert (Exy : l_name y = l_name x).
         { destruct Hs as (S1' & _). destruct (lm_get_name _ _ _ Hg) as [Hln _]. congruence. }
         unfold ublocked in Hyb, Hnb. rewrite Exy in Hyb. congruence.
     + cbn [st_after s_w w_ks]. eapply ku_seq_wf; eauto.
-    + exists o, s', (iss ++ iss2). split; [exact R|]. split.
+    + cbn [st_after s_w w_ks] in Hincl2.
+      exists o, s', (iss ++ iss2). split; [exact R|]. split; [|split].
       * rewrite Hlog. cbn [st_after s_log]. unfold umlog. rewrite map_app, rev_app_distr, app_assoc. reflexivity.
-      * apply Forall_app. split; assumption.
+      * eapply incl_tran; eauto.
+      * apply Forall_app. split; [|assumption].
+        eapply Forall_impl; [|exact Hiss']. intros t. now apply tgt_ok_incl.
 Qed.
 
 End Light.
